@@ -116,6 +116,12 @@ class World:
     def put_dir(self, vpath):
         os.makedirs(self.real(vpath), exist_ok=True)
 
+    def put_symlink(self, vpath, target):
+        """a symbolic link inside the virtual tree; `target` is relative"""
+        r = self.real(vpath)
+        os.makedirs(os.path.dirname(r), exist_ok=True)
+        os.symlink(target, r)
+
     def read_file(self, vpath):
         with open(self.real(vpath), "rb") as f:
             return f.read()
@@ -519,7 +525,9 @@ class PathProxy:
             p = self.w.cwd + "/" + p
         return os.path.normpath(p)
 
-    realpath = abspath
+    def realpath(self, p, **kw):
+        # resolves symbolic links inside the virtual tree
+        return self.w.virt(os.path.realpath(self.w.real(p)))
 
     def __getattr__(self, name):
         return getattr(os.path, name)
